@@ -9,7 +9,7 @@ COQ = os.path.join(ROOT, "coq")
 COQGEN = os.path.join(ROOT, "coqgen")
 WORK = os.path.join(ROOT, "work")
 HARNESS = os.path.join(ROOT, "harness")
-EVID = os.path.join(ROOT, "evidence")
+EVID = os.environ.get("VERIF_EVIDENCE_DIR") or os.path.join(ROOT, "evidence")   # bin/mutcheck redirects it: a run on a mutated tree must never overwrite the evidence
 NCPU = os.cpu_count() or 4
 
 GOENV = dict(os.environ, GOFLAGS="-mod=mod", GOPROXY="off", GOSUMDB="off",
